@@ -115,8 +115,17 @@ func NewGraph(t *sim.Tape, lsys *linking.LinkSystem, maxBlocks int, danglePct in
 		if jsonBlock {
 			codec = 0x0129
 		}
-		lp := cidlink.LinkPrototype{Prefix: cid.Prefix{Version: 1, Codec: codec, MhType: mh.SHA2_256, MhLength: -1}}
+		mht := uint64(mh.SHA2_256)
+		if t.Pct(15, "g.identity") {
+			mht = mh.IDENTITY // the block travels inside its own link; loaders are still asked for it
+		}
+		lp := cidlink.LinkPrototype{Prefix: cid.Prefix{Version: 1, Codec: codec, MhType: mht, MhLength: -1}}
 		l, err := lsys.Store(linking.LinkContext{}, lp, node)
+		if err != nil && mht == mh.IDENTITY {
+			// an identity link of a large block can be too long a name for a filesystem store
+			lp.MhType = mh.SHA2_256
+			l, err = lsys.Store(linking.LinkContext{}, lp, node)
+		}
 		if err != nil {
 			return nil, err
 		}
